@@ -310,6 +310,63 @@ theorem concurrent_run_eq_alone (i : Nat) (sched : List Nat) (w : World) (ths : 
   rw [hx.1, hx.2, h3]
   exact ⟨rfl, rfl⟩
 
+/-! ### 4b. …and every thread that gets enough turns finishes, with its result alone -/
+
+private theorem stepN_ret (fails : Nat → Bool) (m : Nat) (st : PState) (a : α) :
+    stepN fails m st (.ret a) = (st, .ret a) := by
+  induction m with
+  | zero => rfl
+  | succ m ih => simp [stepN, Tree.step, ih]
+
+/-- a program tree is finite: run alone it reaches its end after some number of steps (and stays there), in the state
+    and with the value `exec` computes -/
+theorem run_alone_terminates (fails : Nat → Bool) (st : PState) (t : Tree α) :
+    ∃ n, ∀ m, n ≤ m → stepN fails m st t = ((exec fails st t).1, .ret (exec fails st t).2.1) := by
+  induction t generalizing st with
+  | ret a => exact ⟨0, fun m _ => by simp [stepN_ret, exec]⟩
+  | lookup t k ih =>
+    obtain ⟨n, hn⟩ := ih (answer fails st t).2.1 (answer fails st t).1
+    refine ⟨n + 1, fun m hm => ?_⟩
+    obtain ⟨m', rfl⟩ : ∃ m', m = m' + 1 := ⟨m - 1, by omega⟩
+    simp only [stepN, Tree.step, exec]
+    exact hn m' (by omega)
+  | register t c k ih =>
+    obtain ⟨n, hn⟩ := ih { st with prov := st.prov.register t c }
+    refine ⟨n + 1, fun m hm => ?_⟩
+    obtain ⟨m', rfl⟩ : ∃ m', m = m' + 1 := ⟨m - 1, by omega⟩
+    simp only [stepN, Tree.step, exec]
+    exact hn m' (by omega)
+  | deregister k ih =>
+    obtain ⟨n, hn⟩ := ih { st with prov := st.prov.deregister }
+    refine ⟨n + 1, fun m hm => ?_⟩
+    obtain ⟨m', rfl⟩ : ∃ m', m = m' + 1 := ⟨m - 1, by omega⟩
+    simp only [stepN, Tree.step, exec]
+    exact hn m' (by omega)
+  | mark i k ih =>
+    obtain ⟨n, hn⟩ := ih st
+    refine ⟨n + 1, fun m hm => ?_⟩
+    obtain ⟨m', rfl⟩ : ∃ m', m = m' + 1 := ⟨m - 1, by omega⟩
+    simp only [stepN, Tree.step, exec]
+    exact hn m' (by omega)
+
+/-- **Total form.**  Thread `i` starts script `s` on a provider object of its own.  There is a number `n` of turns such
+    that under EVERY schedule giving thread `i` at least `n` turns — whatever the other threads are and do — thread `i`
+    has finished with exactly the result of `runScript`, and its provider is exactly what `runScript` leaves. -/
+theorem concurrent_run_finishes_as_alone (i : Nat) (w : World) (ths : Nat → Thread (Except Err R))
+    (s : Script H R) (f : Faults)
+    (hown : ∀ j, j ≠ i → (ths j).pid ≠ (ths i).pid)
+    (hstart : (ths i).tree = runTree s f ∧ (ths i).nBase = 0 ∧ (ths i).fails = f.fails) :
+    ∃ n, ∀ sched : List Nat, n ≤ sched.count i →
+      ((wrun w ths sched).2 i).tree = .ret (runScript (w (ths i).pid) s f).2.result ∧
+      (wrun w ths sched).1 (ths i).pid = (runScript (w (ths i).pid) s f).1 := by
+  obtain ⟨n, hn⟩ := run_alone_terminates f.fails ⟨w (ths i).pid, 0⟩ (runTree s f)
+  refine ⟨n, fun sched hc => ?_⟩
+  obtain ⟨h1, _, h3⟩ := interleaving_invisible_with_own_provider i sched w ths hown
+  obtain ⟨ht, hnb, hf⟩ := hstart
+  rw [ht, hnb, hf] at h1 h3
+  rw [h1, h3, hn _ hc]
+  exact ⟨rfl, rfl⟩
+
 /-! ### 5. The shared default provider: falsy, so every lookup is gated off -/
 
 /-- with a falsy provider the next step of a program does not depend on the provider's session (nor on the counter) -/
@@ -362,6 +419,22 @@ theorem shared_falsy_provider_invisible (i : Nat) (sched : List Nat) (w : World)
       have e1 : ((wstep w ths k).2 i).tree = (ths i).tree := by
         simp [wstep, Ne.symm hk]
       rw [e1]
+
+/-- **Total form for the shared default provider.**  Thread `i` runs script `s` on a falsy provider object that any
+    number of other threads use at the same time.  Under every schedule giving it enough turns it finishes with the
+    result it has alone — the result of `runScript` on that provider, which by `default_provider_gated` does not
+    depend on the session content either. -/
+theorem shared_falsy_provider_finishes_as_alone (i : Nat) (w : World) (ths : Nat → Thread (Except Err R))
+    (s : Script H R) (f : Faults) (hw : (w (ths i).pid).truthy = false)
+    (hstart : (ths i).tree = runTree s f ∧ (ths i).fails = f.fails) :
+    ∃ n, ∀ sched : List Nat, n ≤ sched.count i →
+      ((wrun w ths sched).2 i).tree = .ret (runScript (w (ths i).pid) s f).2.result := by
+  obtain ⟨n, hn⟩ := run_alone_terminates f.fails ⟨w (ths i).pid, 0⟩ (runTree s f)
+  refine ⟨n, fun sched hc => ?_⟩
+  have h := shared_falsy_provider_invisible i sched w ths ⟨w (ths i).pid, 0⟩ hw hw
+  rw [hstart.1, hstart.2] at h
+  rw [h, hn _ hc]
+  rfl
 
 /-- events of a program run against a falsy provider never contain a lookup, and the value it returns does not depend
     on the session content, the lookup counter or the fault plan -/
@@ -523,5 +596,20 @@ example :
     let ths : Nat → Thread (Except Err DescResult) := fun i => ⟨i, fun _ => false, 0, runTree sc3 {}⟩
     let r := wrun (fun _ => p0) ths [1, 2, 2, 1, 1, 2, 1, 2, 2, 1, 1, 1, 2, 2, 1, 2, 1, 2, 1, 2, 1, 2, 1, 2]
     (r.2 1).tree.result?.isSome = true ∧ r.1 1 = p0 ∧ r.1 2 = p0 := by decide
+
+/-- the hypotheses of the total forms are satisfiable: three threads, each with its own truthy provider object;
+    and any number of threads on the one default provider -/
+example : ∃ n, ∀ sched : List Nat, n ≤ sched.count 1 →
+    ((wrun (fun _ => p0) (fun i => ⟨i, Faults.fails {}, 0, runTree sc3 {}⟩) sched).2 1).tree
+      = .ret (runScript p0 sc3 {}).2.result ∧
+    (wrun (fun _ => p0) (fun i => ⟨i, Faults.fails {}, 0, runTree sc3 {}⟩) sched).1 1 = (runScript p0 sc3 {}).1 :=
+  concurrent_run_finishes_as_alone 1 (fun _ => p0) (fun i => ⟨i, Faults.fails {}, 0, runTree sc3 {}⟩) sc3 {}
+    (fun _ hj => hj) ⟨rfl, rfl, rfl⟩
+
+example : ∃ n, ∀ sched : List Nat, n ≤ sched.count 0 →
+    ((wrun (fun _ => defaultProvider) (fun _ => ⟨0, Faults.fails {}, 0, runTree sc3 {}⟩) sched).2 0).tree
+      = .ret (runScript defaultProvider sc3 {}).2.result :=
+  shared_falsy_provider_finishes_as_alone 0 (fun _ => defaultProvider) (fun _ => ⟨0, Faults.fails {}, 0, runTree sc3 {}⟩)
+    sc3 {} (by decide) ⟨rfl, rfl⟩
 
 end SqlLineage.Props.C12
